@@ -28,6 +28,9 @@ def oracle_c01(tr, stats):
     for r in tr.steps:
         regs = r["regs"]
         enabled = r["enabled_after"] and not r.get("disabled_during")
+        if r["kind"] == "script":
+            # the clean-up of a job that completes inside a region takes the tool to where the file is (C15 demands exactly that)
+            continue
         for m in r["a_moves"]:
             if m["kind"] == "home":
                 continue
@@ -314,6 +317,25 @@ class MotionMonitor(Monitor):
         st.setdefault("clear", False)
         st.setdefault("shrink", any(x[0] == "api_delete" for x in case["steps"]))
         steps = [["event", "PrintStarted"]] + list(case["steps"])
+        h = len(repr(case["steps"][:9])) * 2654435761 % 1000
+        regs = [r for r in case.get("regions") or [] if all(isinstance(q, (int, float)) and abs(q) < 1e6 for q in r[1:-1])]
+        if h % 4 == 0 and regs and case["steps"] and case["steps"][0] == ["g", "G28"]:
+            # an earlier run of the job, abandoned without any end event (inside a region, with exclusion switched off, or in
+            # relative mode), then the job starts again from the top: the second run owes nothing to the first
+            r0 = regs[0]
+            cin = ((r0[1] + r0[3]) / 2.0, (r0[2] + r0[4]) / 2.0) if r0[0] == "rect" else (r0[1], r0[2])
+            outs = [q for q in ((-30.0, -30.0), (200.0, 200.0), (-30.0, 200.0), (300.0, -40.0)) if depth_in(regs, q[0], q[1]) < -1.0]
+            if outs and depth_in(regs, cin[0], cin[1]) > 0.2:
+                first = [["g", "G28"], ["g", "G1 X%s Y%s Z0.4 F3000" % (fmt(outs[0][0], 3), fmt(outs[0][1], 3))]]
+                first += {0: [["g", "G1 X%s Y%s E1" % (fmt(cin[0], 3), fmt(cin[1], 3))], ["g", "G1 Z2.5"]],
+                          1: [["at", "ExcludeRegion", "off"]],
+                          2: [["g", "G91"], ["g", "G1 X2 Y2"]],
+                          3: [["g", "G1 X%s Y%s E1" % (fmt(cin[0], 3), fmt(cin[1], 3))], ["g", "M204 S777"], ["g", "G20"]]}[(h // 4) % 4]
+                steps = [["event", "PrintStarted"]] + first + [["event", "PrintStarted"], ["g", "G92 E0"], ["g", "G21"], ["g", "G90"]] \
+                    + list(case["steps"])
+        if h % 3 == 0:
+            # the end script is rendered (and its lines queued) before the PrintDone event arrives
+            steps += [["script", "gcode", "afterPrintDone"], ["g", "G91"], ["g", "G1 Z10"], ["g", "G90"], ["event", "PrintDone"]]
         if len(steps) > 8:
             # the firmware's position report (M114 reply) arrives as an event now and then; what it says is the printer's business
             k = 3 + (len(repr(case["steps"][:7])) * 31) % (len(steps) - 4)
